@@ -700,6 +700,7 @@ def render_probe(entry, macro, modname):
     else:
         body = decls + macros + rules
     lines = PROBE_PRELUDE.rstrip("\n").split("\n")
+    lines += [x for x in render.render_consts(prog).split("\n") if x]          # named Rust constants the program mentions
     lines.append(f"// {entry['name']}: class {entry['cls']} ({entry['kind']}); {entry['pos']}; under {macro}!")
     dump = []
     for r in plain:
